@@ -224,6 +224,12 @@ pub fn c16(ctx: &Ctx) {
     for p in C16_PREFIXES {
         total += for_all_strings(&sigma, n_pref, &|s| check(&format!("{p}{s}"), true));
     }
+    // characters whose code point ends in the byte of a special ASCII character (0x00, '#', '$', '+', '/'):
+    // a validator that narrows `char` to `u8` confuses them with the special character
+    let sigma_x = ['/', '+', '#', '$', 'a', '\0', 'é', 'Ā', 'ģ', 'Ĥ', 'ī', 'į', '😀'];
+    let n_x = if ctx.thorough() { 5 } else { 4 };
+    total += for_all_strings(&sigma_x, n_x, &|s| check(s, true));
+    total += for_all_strings(&sigma_x, n_x - 1, &|s| check(&format!("$share/{s}"), true));
     let muts = mutated_share_prefixes();
     for p in &muts {
         total += for_all_strings(&sigma, n_mut, &|s| check(&format!("{p}{s}"), true));
@@ -439,12 +445,32 @@ pub fn c17(ctx: &Ctx) {
             subset.push(sh);
         }
     });
+    // share names that are prefixes of one another, continued by characters that sort below and above '/'
+    let mut names: Vec<String> = Vec::new();
+    for_all_strings_seq(&['a', '-', '!', ' ', '0', 'é'], 3, &mut |s| {
+        if !s.is_empty() {
+            names.push(s.to_string());
+        }
+    });
+    let mut related: Vec<String> = Vec::new();
+    for n in &names {
+        for tail in ["t", "/", "+/#", "-"] {
+            related.push(format!("$share/{n}/{tail}"));
+        }
+        related.push(format!("{n}/t"));
+        related.push(format!("$share{n}/t"));
+    }
+    related.retain(|s| text::filter_valid(s));
     let limit = if ctx.thorough() { 4000 } else { 1600 };
     // deterministic thinning that keeps neighbours (prefix-related strings) together
     if subset.len() > limit {
         let step = subset.len() as f64 / limit as f64;
         subset = (0..limit).map(|i| subset[(i as f64 * step) as usize].clone()).collect();
     }
+    if !ctx.thorough() {
+        related = related.into_iter().step_by(2).collect();
+    }
+    subset.extend(related);
     let filters: Vec<TopicFilter> = subset.iter().filter_map(|s| TopicFilter::try_from(s.clone()).ok()).collect();
     let n = filters.len();
     (0..n).into_par_iter().for_each(|i| {
@@ -611,6 +637,12 @@ pub fn c18(ctx: &Ctx) {
     let mut total = for_all_strings(&sigma, n_plain, &|s| check(s, true));
     for p in prefixes {
         total += for_all_strings(&sigma, n_pref, &|s| check(&format!("{p}{s}"), true));
+    }
+    let sigma_x = ['/', '+', '#', '$', 'a', 'S', '\0', 'é', 'Ā', 'ģ', 'Ĥ', 'ī', 'į', '一', '😀'];
+    let n_x = if ctx.thorough() { 5 } else { 4 };
+    total += for_all_strings(&sigma_x, n_x, &|s| check(s, true));
+    for p in ["$SYS", "$share", "$SY", "$shar", "aaaa", "aaaaaa"] {
+        total += for_all_strings(&sigma_x, 2, &|s| check(&format!("{p}{s}"), true));
     }
     let mut cores = Vec::new();
     for_all_strings_seq(&sigma, 2, &mut |s| cores.push(s.to_string()));
